@@ -46,7 +46,7 @@ func init() {
 			{Name: "TF-STREAM", What: "the CRAM stream readers slice a buffer that holds the longest encoding (5 bytes ITF-8, 9 bytes LTF-8) by the width the first byte announces (shared with C20; here since thirteenth-round seed C11-m: a shared 8-byte scratch field, and a first byte 0xff slices [1:9])", Floor: 2, Run: ruleTFStream},
 			{Name: "CSV-FIELDS", What: "the premise IDX-CONST trusts in fai.ReadFrom: csv.Reader.FieldsPerRecord is a positive constant above every constant record index, set once, before the first Read (added after eleventh-round seed C11-k)", Floor: 1, Run: ruleCSVFields},
 			{Name: "PANIC-REACH", What: "every explicit panic in library code is in the reviewed table (caller contract / internal / recovered)", Floor: 15, Run: rulePanicReach},
-			{Name: "VAR-SLICE", What: "in the BAM record/aux decoders every variable slice bound is compared with the slice's length on a dominating edge", Floor: 6, Run: ruleVarSlice(varSliceFuncs)},
+			{Name: "VAR-SLICE", What: "in the BAM record/aux decoders and the CRAM file-header decoder every variable slice bound is compared with the slice's length on a dominating edge, and a computed upper bound is shown to be no smaller than the lower one (a count from the input that may be negative: s[4:4+n]); the second clause and the CRAM decoder since fifteenth-round seed C11-p", Floor: 8, Run: ruleVarSlice(varSliceFuncs)},
 			{Name: "LOOP-PROGRESS", What: "bam.parseAux's cursor advances by ≥ 1 on every path round its loop", Floor: 1, Run: ruleLoopProgress(loopProgressFuncs)},
 			{Name: "ACCEPT-AGREE", What: "the aux types and array element types bam.parseAux lets through are exactly those sam.Aux.Value decodes and the format defines (both sets computed by partial evaluation of the branch conditions under each value of the type and subtype bytes)", Floor: 2, Run: ruleAcceptAgree},
 			{Name: "MAP-INIT", What: "every map field that methods write through an existing object is made, on every path, before a function that allocates the object returns it (through callees by summary): a decoded or new value never has a nil map that Add/Set would write to", Floor: 8, Run: ruleMapInit},
@@ -64,7 +64,7 @@ func init() {
 			{Name: "OFFSET-FITS", What: "fai.ReadFrom bounds BytesPerLine (relative to the number of lines) and Start (relative to the record's extent), the operands of the unchecked product and sum in Record.position", Floor: 2, Run: ruleOffsetFits},
 		},
 		Explanation: "Removes, on every path of every library function, the classical decoder mistakes that make hostile input panic or hang: a fixed-column index or slice bound without a length test (IDX-CONST, with a small lower-bound analysis over constants, len, slicing arithmetic and the comparisons that dominate the use), a decoded signed count handed to make (MAKE-SIGN), a lookup table smaller than its index's range (IDX-TABLE), division by a decoded zero (DIV-ZERO), nil value with nil error (NILRET), explicit panics outside the reviewed set (PANIC-REACH), unchecked variable bounds and a non-advancing cursor in the BAM aux walker (VAR-SLICE, LOOP-PROGRESS).",
-		NotDecided:  "variable-index arithmetic outside the anchored BAM decoders, the sites listed as trusted (type invariants and library contracts, named in the evidence), nil dereferences in general, panics inside the standard library, memory use. The rules do not prove absence of all panics.",
+		NotDecided:  "variable-index arithmetic outside the anchored decoders (BAM record and aux data, the CRAM file header; the CRAM container, slice and block-content decoders are not anchored), the sites listed as trusted (type invariants and library contracts, named in the evidence), nil dereferences in general, panics inside the standard library, memory use. The rules do not prove absence of all panics.",
 		Assumptions: []string{"64-bit int", "library contracts: bytes/strings.Split return at least one element; hex.DecodedLen ≥ 0; bufio Peek/ReadBytes; bytes.IndexByte", "trusted sites: see init() in tool/c11.go"},
 	})
 }
